@@ -608,7 +608,11 @@ func c19Run(repo, fitgen, dir string, cfg c19Config) (string, c19Info) {
 	maj, min := strings.Split(cfg.version, ".")[0], strings.Split(cfg.version, ".")[1]
 	xlsxPath := filepath.Join(dir, "Profile.xlsx")
 	os.WriteFile(xlsxPath, data, 0o644)
-	zipPath := filepath.Join(dir, "FitSDKRelease_"+cfg.version+".zip")
+	// the archive sits under a directory whose name has a version-like part, a space and a dot:
+	// only the file name says which SDK release this is
+	zipDir := filepath.Join(dir, "fit-tools-1.2 (copy 3.14)")
+	os.MkdirAll(zipDir, 0o755)
+	zipPath := filepath.Join(zipDir, "FitSDKRelease_"+cfg.version+".zip")
 	{
 		var zb bytes.Buffer
 		zw := zip.NewWriter(&zb)
